@@ -9,7 +9,7 @@ from vf import alg, catalog
 from vf import symops as SO
 from vf.alg import Poly, as_poly
 from vf.harness import Check, new_interp, N, L, H_of, loc, AnalysisBroken, state_phys
-from vf.interp import RepoRaise
+from vf.interp import RepoRaise, UndecidableBranch
 from vf.tens import Tens
 from specs import common as C
 
@@ -89,21 +89,38 @@ def run(tier="quick", only_key=None):
                 x = Tens((N,) * D, [ul[0]])
                 res = it.call(names["spatial_aggregator"], [x], {"domain_extent": Lx, "inner_exponent": Fr(p), **({} if q is None else {"outer_exponent": Fr(q)})})
                 ck.compare("aggregator", f"exponax.metrics.spatial_aggregator#p={p},q={q},{tag}", loc(names["spatial_aggregator"]), _sc(res), spatial_agg(ul[0], D, Lx, p, q))
-                for low, high, order in ((None, None, None), (S("lo"), S("hi"), None), (S("lo"), None, 1), (None, S("hi"), 2), (None, None, 1)):
+                for low, high, order in ((None, None, None), (S("lo"), S("hi"), None), (S("lo"), None, 1), (None, S("hi"), 2), (None, None, 1), (0, S("hi"), None), (0, 4, None), (1, S("hi"), None), (2, None, 1), (3, 5, None)):
+                    if isinstance(low, int) and (p, q) not in ((2, Fr(1, 2)), (1, 1)) and tier == "quick":
+                        continue
                     kw = {"domain_extent": Lx, "inner_exponent": Fr(p), "low": low, "high": high, "derivative_order": order}
                     if q is not None:
                         kw["outer_exponent"] = Fr(q)
-                    res = it.call(names["fourier_aggregator"], [x], kw)
-                    ck.compare("aggregator", f"exponax.metrics.fourier_aggregator#p={p},q={q},low={low},high={high},order={order},{tag}", loc(names["fourier_aggregator"]), _sc(res), fourier_agg(it, ul[0], D, parity, Lx, p, q, low, high, order, S_rec))
+                    key = f"exponax.metrics.fourier_aggregator#p={p},q={q},low={low},high={high},order={order},{tag}"
+                    try:
+                        res = it.call(names["fourier_aggregator"], [x], kw)
+                    except UndecidableBranch as e:
+                        if isinstance(low, Poly) or isinstance(high, Poly):
+                            # a Python-level decision on the (static integer) band limit: the symbolic row cannot be
+                            # evaluated, the concrete rows below decide
+                            ck.notes.append(f"{key}: symbolic band limit not evaluable ({e}); decided by the concrete rows")
+                            continue
+                        raise
+                    ck.compare("aggregator", key, loc(names["fourier_aggregator"]), _sc(res), fourier_agg(it, ul[0], D, parity, Lx, p, q, low, high, order, S_rec))
             # ---- norms
             for mode in ("absolute", "normalized", "symmetric"):
                 res = it.call(names["spatial_norm"], [u, r], {"mode": mode, "domain_extent": Lx, "inner_exponent": Fr(2), "outer_exponent": Fr(1, 2)})
                 ref = norm_ref(lambda x: spatial_agg(x, D, Lx, 2, Fr(1, 2)), ul, rl, mode)
                 ck.compare("norm", f"exponax.metrics.spatial_norm#{mode},{tag}", loc(names["spatial_norm"]), _sc(res), ref)
                 if mode != "symmetric":
-                    res = it.call(names["fourier_norm"], [u, r], {"mode": mode, "domain_extent": Lx, "inner_exponent": Fr(2), "outer_exponent": Fr(1, 2), "low": S("lo"), "high": S("hi"), "derivative_order": 1})
-                    ref = norm_ref(lambda x: fourier_agg(it, x, D, parity, Lx, 2, Fr(1, 2), S("lo"), S("hi"), 1, S_rec), ul, rl, mode)
-                    ck.compare("norm", f"exponax.metrics.fourier_norm#{mode},{tag}", loc(names["fourier_norm"]), _sc(res), ref)
+                    for blo, bhi in ((S("lo"), S("hi")), (0, 3), (2, 5)):
+                        try:
+                            res = it.call(names["fourier_norm"], [u, r], {"mode": mode, "domain_extent": Lx, "inner_exponent": Fr(2), "outer_exponent": Fr(1, 2), "low": blo, "high": bhi, "derivative_order": 1})
+                        except UndecidableBranch:
+                            if isinstance(blo, Poly):
+                                continue
+                            raise
+                        ref = norm_ref(lambda x: fourier_agg(it, x, D, parity, Lx, 2, Fr(1, 2), blo, bhi, 1, S_rec), ul, rl, mode)
+                        ck.compare("norm", f"exponax.metrics.fourier_norm#{mode},low={blo},high={bhi},{tag}", loc(names["fourier_norm"]), _sc(res), ref)
             res = it.call(names["spatial_norm"], [u], {"domain_extent": Lx})
             ck.compare("norm", f"exponax.metrics.spatial_norm#no-ref,{tag}", loc(names["spatial_norm"]), _sc(res), norm_ref(lambda x: spatial_agg(x, D, Lx, 2, None), ul, None, "absolute"))
             # ---- table
@@ -120,17 +137,28 @@ def run(tier="quick", only_key=None):
                     nm = "fourier_" + pre + base
                     if nm not in names:
                         raise AnalysisBroken(f"metric {nm} vanished")
-                    for low, high, order in ((None, None, None), (S("lo"), S("hi"), 2)):
-                        res = it.call(names[nm], [u, r], {"domain_extent": Lx, "low": low, "high": high, "derivative_order": order})
+                    for low, high, order in ((None, None, None), (S("lo"), S("hi"), 2), (0, 3, None), (1, None, 1)):
+                        try:
+                            res = it.call(names[nm], [u, r], {"domain_extent": Lx, "low": low, "high": high, "derivative_order": order})
+                        except UndecidableBranch:
+                            if isinstance(low, Poly) or isinstance(high, Poly):
+                                continue
+                            raise
                         ref = norm_ref(lambda x: fourier_agg(it, x, D, parity, Lx, p, q, low, high, order, S_rec), ul, rl, mode)
                         ck.compare("metric-table", f"exponax.metrics.{nm}#low={low},high={high},order={order},{tag}", loc(names[nm]), _sc(res), ref, what=f"{nm} is not the {mode} Fourier norm with (p,q)=({p},{q}) and all options forwarded")
                     n_names += 1
                     nm = "H1_" + pre + base
                     if nm not in names:
                         raise AnalysisBroken(f"metric {nm} vanished")
-                    res = it.call(names[nm], [u, r], {"domain_extent": Lx, "low": S("lo"), "high": S("hi")})
-                    ref = norm_ref(lambda x: fourier_agg(it, x, D, parity, Lx, p, q, S("lo"), S("hi"), None, S_rec), ul, rl, mode) + norm_ref(lambda x: fourier_agg(it, x, D, parity, Lx, p, q, S("lo"), S("hi"), 1, S_rec), ul, rl, mode)
-                    ck.compare("metric-table", f"exponax.metrics.{nm}#{tag}", loc(names[nm]), _sc(res), ref, what=f"{nm} is not fourier_{pre}{base} + fourier_{pre}{base}(derivative_order=1) with all options forwarded")
+                    for blo, bhi in ((S("lo"), S("hi")), (0, 3), (1, 4)):
+                        try:
+                            res = it.call(names[nm], [u, r], {"domain_extent": Lx, "low": blo, "high": bhi})
+                        except UndecidableBranch:
+                            if isinstance(blo, Poly):
+                                continue
+                            raise
+                        ref = norm_ref(lambda x: fourier_agg(it, x, D, parity, Lx, p, q, blo, bhi, None, S_rec), ul, rl, mode) + norm_ref(lambda x: fourier_agg(it, x, D, parity, Lx, p, q, blo, bhi, 1, S_rec), ul, rl, mode)
+                        ck.compare("metric-table", f"exponax.metrics.{nm}#low={blo},high={bhi},{tag}", loc(names[nm]), _sc(res), ref, what=f"{nm} is not fourier_{pre}{base} + fourier_{pre}{base}(derivative_order=1) with all options forwarded")
                     n_names += 1
             # ---- guards
             for fn_, mode in (("spatial_norm", "normalized"), ("spatial_norm", "symmetric"), ("fourier_norm", "normalized")):
